@@ -14,6 +14,7 @@ import (
 
 	codectypes "github.com/cosmos/cosmos-sdk/codec/types"
 	sdk "github.com/cosmos/cosmos-sdk/types"
+	"github.com/cosmos/cosmos-sdk/x/authz"
 	banktypes "github.com/cosmos/cosmos-sdk/x/bank/types"
 	govv1 "github.com/cosmos/cosmos-sdk/x/gov/types/v1"
 	stakingtypes "github.com/cosmos/cosmos-sdk/x/staking/types"
@@ -94,14 +95,17 @@ func shortName(url string) string {
 var signalIDs = []string{"S1", "S2", "S3", "S4", "S5", "S6"}
 
 const (
-	nUsers   = 10
+	nUsers   = 12
 	uAdmin   = 0 // feeds admin, owner of genesis data sources / scripts, member of group 1
 	uCreator = 3 // tunnel creator A
 	uReq     = 4 // requester, funder, tunnel creator B
 	uVoter   = 5 // genesis voter
 	uDelA    = 6 // delegator / staker / voter / member of group 2 / DKG candidate
 	uDelB    = 7
-	uOut     = 8 // outsider with funds
+	uOut     = 8  // outsider with funds
+	uSpare   = 9  // never acts on its own (wrong signer, grantee nobody granted anything)
+	uAgent   = 10 // authz grantee of everybody (what yoda / grogu / cylinder keys are on real networks)
+	uAgent2  = 11 // holds one grant: the agent's MsgExec (nested execution)
 )
 
 func init() {
@@ -158,8 +162,7 @@ type world struct {
 	samplingTry  uint64 // oracle SamplingTryCount in the committed state
 	hung         bool
 	// bookkeeping
-	props    map[uint64]int // proposal id -> message type index
-	propMsgs map[uint64]sdk.Msg
+	props map[uint64][]*comp // proposal id -> its messages
 }
 
 func uband(n int64) sdk.Coins { return sdk.NewCoins(sdk.NewInt64Coin("uband", n)) }
@@ -331,7 +334,35 @@ func (w *world) setup() bool {
 		for _, v := range ch.Vals {
 			add(v, govv1.NewMsgVote(v.Addr, 1, govv1.OptionYes, ""))
 		}
-		w.props[1] = typeIndex("/band.bandtss.v1beta1.MsgTransitionGroup")
+		ti := typeIndex("/band.bandtss.v1beta1.MsgTransitionGroup")
+		w.props[1] = []*comp{{ti: ti, url: msgTypes[ti].url, msg: m}}
+	}
+	if w.c.Grants {
+		// every account that acts in the history lets the agent act for it, for every message type of the custom modules
+		// that is not authority-only (generic authorizations without expiry: what validators give their yoda / grogu keys
+		// and members their cylinder keys); the agent lets agent2 execute its MsgExec (nested execution)
+		granters := append(append([]*sim.Account{}, u[:uSpare]...), ch.Vals...)
+		for _, g := range granters {
+			var msgs []sdk.Msg
+			for _, mt := range msgTypes {
+				if mt.gov {
+					continue
+				}
+				m, gerr := authz.NewMsgGrant(g.Addr, u[uAgent].Addr, authz.NewGenericAuthorization(mt.url), nil)
+				if gerr != nil {
+					w.v.Failf("harness", "grant: %v", gerr)
+					return false
+				}
+				msgs = append(msgs, m)
+			}
+			add(g, msgs...)
+		}
+		m, gerr := authz.NewMsgGrant(u[uAgent].Addr, u[uAgent2].Addr, authz.NewGenericAuthorization(sdk.MsgTypeURL(&authz.MsgExec{})), nil)
+		if gerr != nil {
+			w.v.Failf("harness", "grant: %v", gerr)
+			return false
+		}
+		add(u[uAgent], m)
 	}
 	res, err := ch.Block(txs, time.Second)
 	if fail("A", res, err) {
